@@ -142,6 +142,26 @@ func (fv *FnV) lockBalanceAtReturn(st *State, pos token.Pos) {
 func (fv *FnV) guardedAccess(st *State, v ssa.Value, pos token.Pos, mode string) {
 	var gd *GlobalDecl
 	switch x := v.(type) {
+	case *ssa.FreeVar:
+		if fv.k == nil {
+			return
+		}
+		mn, ok := fv.k.GuardedFree[x.Name()]
+		if !ok {
+			return
+		}
+		for _, f := range fv.fn.FreeVars {
+			if f.Name() == mn {
+				m := fv.term(fv.val(f))
+				held := not(eq(sel(fv.heapGet(st, "G|held"), m), "0"))
+				fv.emit(st, "L", "guarded:"+x.Name()+":"+mode, fv.lockProps(), held, mode+" of the shared variable "+x.Name()+" happens with "+mn+" held", pos)
+				return
+			}
+		}
+		o := fv.emit(st, "L", "guarded:"+x.Name()+":"+mode, fv.lockProps(), "false", "the mutex "+mn+" guarding "+x.Name()+" is captured by the closure", pos)
+		o.Static = "fails: " + mn + " is not captured"
+		o.Script = ""
+		return
 	case *ssa.Global:
 		gd = fv.g.globalsDecl[x.Pkg.Pkg.Name()+"."+x.Name()]
 	default:
@@ -149,6 +169,9 @@ func (fv *FnV) guardedAccess(st *State, v ssa.Value, pos token.Pos, mode string)
 	}
 	if gd == nil || gd.Kind != "guarded_by" {
 		return
+	}
+	if n := fv.fn.Name(); n == "init" || strings.HasPrefix(n, "init#") {
+		return // package initialisation happens before any other goroutine can run
 	}
 	mg := fv.g.spkgs[fv.pkgTypes().Path()].Members[gd.Mutex]
 	mglob, ok := mg.(*ssa.Global)
